@@ -206,3 +206,112 @@ class evaluate_arithmetic:
         if date_result(op, lc[1], rc[1]):
             return as_date_result(r)
         return r
+
+
+# ---------------------------------------------------------------------------------------------- arrays (C06)
+# ExcelArrayOps: an array combines element-wise with a scalar and with an array of equal length, #VALUE! on a length mismatch; the result
+# is a NEW list and the wrapped array is left as it was.  Shapes: arrays of 2 and 3 elements (integers and error values) against a scalar, an equal-length and an unequal-length array.  One-element array operands are the known
+# finding C06-one-element-array-broadcast and are left out of the shapes here.
+AE = INT | ERR        # (the array layer only maps: the element operation on every other type is evaluate_arithmetic's own contract)
+AO2 = OBJECT('hotxlfp.formulas.operators:ExcelArrayOps', arr=LISTN(AE, AE))
+AO3 = OBJECT('hotxlfp.formulas.operators:ExcelArrayOps', arr=LISTN(AE, AE, AE))
+ARRAY_SHAPES = [dict(self=AO2, value=AE), dict(self=AO3, value=AE), dict(self=AO2, value=LISTN(AE, AE)), dict(self=AO3, value=LISTN(AE, AE, AE)),
+                dict(self=AO3, value=LISTN(AE, AE)), dict(self=AO2, value=LISTN(AE, AE, AE))]
+
+
+def no_text_dates(xs):
+    # text operands that spell a date are excluded here (evaluate_arithmetic's own precondition speaks about them)
+    for x in xs:
+        if not (is_err(x) or date_ok(classify(x)[0])):
+            return False
+    return True
+
+
+def elementwise(op, swapped, self, value, old, out):
+    arr = old.arr
+    n = len(arr)
+    if len(self.arr) != n:
+        return False
+    for j in range(0, n):
+        if not same(self.arr[j], arr[j]):
+            return False                       # the wrapped array is not written to
+    if is_list(value) and len(value) != n:
+        return out.ret and same(out.value, VALUE)
+    if not (out.ret and is_list(out.value) and len(out.value) == n):
+        return False
+    for j in range(0, n):
+        other = value[j] if is_list(value) else value
+        want = evaluate_arithmetic.spec(op, other, arr[j]) if swapped else evaluate_arithmetic.spec(op, arr[j], other)
+        if not same(out.value[j], want):
+            return False
+    return True
+
+
+def array_pre(self, value):
+    return no_text_dates(self.arr) and no_text_dates(value if is_list(value) else [value])
+
+
+@contract('hotxlfp.formulas.operators:ExcelArrayOps.__add__', props=['C06'])
+class ExcelArrayOps_add:
+    cases = ARRAY_SHAPES
+
+    def pre(self, value):
+        return array_pre(self, value)
+
+    def post(self, value, old, out):
+        return elementwise('+', False, self, value, old, out)
+
+
+@contract('hotxlfp.formulas.operators:ExcelArrayOps.__sub__', props=['C06'])
+class ExcelArrayOps_sub:
+    cases = ARRAY_SHAPES
+
+    def pre(self, value):
+        return array_pre(self, value)
+
+    def post(self, value, old, out):
+        return elementwise('-', False, self, value, old, out)
+
+
+@contract('hotxlfp.formulas.operators:ExcelArrayOps.__rsub__', props=['C06'])
+class ExcelArrayOps_rsub:
+    cases = ARRAY_SHAPES
+
+    def pre(self, value):
+        return array_pre(self, value)
+
+    def post(self, value, old, out):
+        return elementwise('-', True, self, value, old, out)
+
+
+@contract('hotxlfp.formulas.operators:ExcelArrayOps.__mul__', props=['C06'])
+class ExcelArrayOps_mul:
+    cases = ARRAY_SHAPES
+
+    def pre(self, value):
+        return array_pre(self, value)
+
+    def post(self, value, old, out):
+        return elementwise('*', False, self, value, old, out)
+
+
+@contract('hotxlfp.formulas.operators:ExcelArrayOps.__truediv__', props=['C06'])
+class ExcelArrayOps_truediv:
+    cases = ARRAY_SHAPES
+
+    def pre(self, value):
+        return array_pre(self, value)
+
+    def post(self, value, old, out):
+        return elementwise('/', False, self, value, old, out)
+
+
+@contract('hotxlfp.formulas.operators:ExcelArrayOps.__rtruediv__', props=['C06'])
+class ExcelArrayOps_rtruediv:
+    cases = ARRAY_SHAPES
+
+    def pre(self, value):
+        return array_pre(self, value)
+
+    def post(self, value, old, out):
+        return elementwise('/', True, self, value, old, out)
